@@ -59,6 +59,13 @@ class RuleResult:
     def site(self, s: str):
         self.sites.append(s)
 
+    def as_rule(self, new_rule: str) -> "RuleResult":
+        """the same result reported under another property's rule id (shared clauses)"""
+        self.rule = new_rule
+        for f in self.findings:
+            f.rule = new_rule
+        return self
+
     def ok(self, sample=None, n: int = 1):
         self.obligations += n
         self.discharged += n
